@@ -33,4 +33,37 @@ PROPS = {
                      "crypto/{hmac,aes,cipher} are modelled/assumed, not verified"],
         "assumptions": ["crypto/rand replaced by a fixed reader in the harness so that the IV is an input"],
     },
+    "C05": {
+        "claim": "For each of the 31 decoding layers of pkg/ipmi and pkg/dcmi a Lean model mirrors DecodeFromBytes statement by statement over an explicit Go-slice semantics (indexing bounded by len, slicing by cap, panics and reads beyond len as outcomes) and a refinement / canonical-form theorem shows: for EVERY receiver state and EVERY slice (any length, any capacity, any bytes beyond its length) the result is a value or an error - never a panic or an over-read - and is a function of the visible bytes only. The AES layer is proved for every lawful block cipher and key, i.e. for every plaintext a key holder can craft. On top: the whole decoding chain of an in-session reply never crashes (decodeChain_total) and an in-session command returns for every reply script of every length (call_total). Models are tied to the code by running every decoder under recover() on exact-capacity slices and on windows into a poisoned buffer with two poisons.",
+        "note": "trusted: Lean kernel; the hand-written decodeGo models (tied by correspondence: outcome incl. every exported field, panic, over-read); Go slice semantics as modelled in Basic/Go.lean; gopacket's LayersDecoder modelled from source; state left behind by a FAILED decode is not modelled; session-less and handshake call totality rest on the same per-layer theorems plus the correspondence runs of C10/C02 (no separate Lean theorem yet)",
+        "technique": "Lean 4 proof (per-layer refinement theorems over Go-slice semantics; induction over reply scripts) + differential correspondence under recover() with poisoned windows",
+        "ref": "§5 C05",
+        "proofs": ["Bmc.Proofs.C05.Basic", "Bmc.Proofs.C05.Core", "Bmc.Proofs.C05.Sess", "Bmc.Proofs.C05.Sdr", "Bmc.Proofs.C05.Setup", "Bmc.Proofs.C05.Dcmi"],
+        "scenarios": ["dec", "send"],
+        "rule": "dec: per layer 150 (thorough 3000) specification-conforming encodings, each decoded fresh / in a poisoned window / after another valid input; every truncation and 1-3 byte extension of 40 of them; single-bit corruptions; random bytes; all ordered pairs of a pool; layer-specific branch steering (crafted AES plaintexts for every pad length x pattern, 7-byte responses, every trailer length). send: exhaustive reply scripts over an 18-letter alphabet (forged, truncated, mis-signed, mis-padded, runt, ...) to depth 2 (thorough 3). Non-trivial = input passing the layer's first length guard / script with a non-final outcome before its end; distinct = distinct op line.",
+        "modelled": ["all DecodeFromBytes methods, LayersDecoder chain, in-session retry loop are hand models tied by correspondence; crypto/aes + cipher.CBC assumed lawful (decBlock inverts encBlock, lengths preserved)"],
+        "assumptions": ["gopacket hands each layer LayerPayload() of the previous one (window into the receive buffer)"],
+    },
+    "C07": {
+        "claim": "For every response layer (24 IPMI/DCMI/RMCP+ layers incl. Full Sensor Record with all four ID-string encodings and every length 0..31, DCMI capabilities for versions 1.0/1.1/1.5, Open Session Response in all its forms) a specification-side record + encoder written from the tables, and a theorem: decoding the encoding of ANY well-formed value yields exactly its fields (every flag bit, 10-bit M/B/accuracy and 4-bit exponents through the C20 two's-complement lemmas, every optional / variable tail), plus rejection theorems (shorter than the minimum, truncated variable tails, wrong payload types, both IPMI checksums, wrapper length field exceeding the data). Models tied to the code by decoding generated spec encodings and comparing every exported field.",
+        "note": "trusted: Lean kernel; Spec/ transcription of the IPMI v2.0 / DCMI tables (PDFs unavailable offline; where the repo's tests pin a reading - DCMI SEL attribute byte order, raw auth status bits, 16-byte AES pads - the spec side follows it and says so); decodeGo models tied by correspondence",
+        "technique": "Lean 4 proof (decode(encode v) = v for all well-formed v, per layer; finite bit facts by decide +kernel) + differential correspondence on spec-conforming encodings",
+        "ref": "§5 C07",
+        "proofs": ["Bmc.Proofs.C07.Basic", "Bmc.Proofs.C07.Core", "Bmc.Proofs.C07.Sess", "Bmc.Proofs.C07.Sdr", "Bmc.Proofs.C07.Setup", "Bmc.Proofs.C07.Dcmi"],
+        "scenarios": ["dec"],
+        "rule": "as for C05 (scenario dec); class P = inputs produced by the per-layer generator of specification-conforming encodings (reserved bits zero, every optional-tail form) and inputs the specification demands be rejected (below the minimum length, corrupted checksums, excessive length fields); everything else is class M.",
+        "modelled": ["all DecodeFromBytes methods are hand models tied by correspondence"],
+        "assumptions": [],
+    },
+    "C17": {
+        "claim": "The per-layer refinement theorems quantify over the receiver's previous state: decodeGo prev d = decodeGo fresh d for every prev and d, for all 31 layers (incl. GetDCMISensorInfoRsp whose RecordIDs slice reuses its backing array - only the visible prefix is observable). At connection level the in-session loop theorem (sendLoop_spec) shows result and transmitted bytes depend only on the keys, the command, the counter and the script - not on what earlier commands left in the layers. Tied to the code by decoding every ordered pair of a pool of valid inputs into one receiver and comparing with a fresh receiver, and by the in-session correspondence run.",
+        "note": "trusted: Lean kernel; decodeGo models tied by correspondence; what a FAILED decode leaves in the receiver is not modelled (layers are rebuilt per attempt and command structs are fresh per call); session-less connection-level independence is covered by correspondence only",
+        "technique": "Lean 4 proof (refinement theorems universally quantified over the receiver state; loop refinement) + differential reuse-vs-fresh correspondence",
+        "ref": "§5 C17",
+        "proofs": ["Bmc.Proofs.C17.Basic", "Bmc.Proofs.C17.Core", "Bmc.Proofs.C17.Sess", "Bmc.Proofs.C17.Sdr", "Bmc.Proofs.C17.Setup", "Bmc.Proofs.C17.Dcmi"],
+        "scenarios": ["dec"],
+        "rule": "as for C05 (scenario dec): every op with an earlier input decodes it into the same receiver first; all ordered pairs of a pool of 8 (thorough 24) valid encodings per layer plus layer-specific pairs with differing optional tails; verdict `stale` when the reused result differs from a fresh one.",
+        "modelled": ["all DecodeFromBytes methods are hand models tied by correspondence"],
+        "assumptions": [],
+    },
 }
